@@ -49,7 +49,7 @@ def verify(d, checks, tier, suite=True):
     if checks == ['all']:
         checks = ['C%02d' % i for i in range(1, 21)]
     elif not checks:
-        checks = [prop]
+        checks = list(meta.get('properties') or [prop])
     wt = '/tmp/seedchk/%s-%d' % (sid, os.getpid())
     os.makedirs('/tmp/seedchk', exist_ok=True)
     scratch = '/dev/shm/seedchk-%s-%d' % (sid, os.getpid())
@@ -79,13 +79,14 @@ def verify(d, checks, tier, suite=True):
         # 3. demo
         demo = os.path.join(d, 'demo.py')
         res = {}
-        for label, tree in (('with_change', wt), ('without_change', '/repo')):
+        for label, tree in (('with_change', wt), ('without_change', '/repo')) if os.path.exists(demo) else ():
             r = sh([PY, demo], cwd=scratch, env=clean_env({'PYTHONPATH': os.path.join(tree, 'src')}), timeout=600)
             res[label] = {'exit': r.returncode, 'tail': (r.stdout + r.stderr).strip().splitlines()[-3:]}
-        ran['demo'] = res
-        print('demo with=%d without=%d' % (res['with_change']['exit'], res['without_change']['exit']))
-        if res['with_change']['exit'] == 0 or res['without_change']['exit'] != 0:
-            ok = False
+        if res:
+            ran['demo'] = res
+            print('demo with=%d without=%d' % (res['with_change']['exit'], res['without_change']['exit']))
+            if res['with_change']['exit'] == 0 or res['without_change']['exit'] != 0:
+                ok = False
         # 4. checks
         det = ran.setdefault('checks', {})
         for c in checks:
